@@ -624,6 +624,284 @@ def check_full_run(a, iso, sp, value, nmonths, shutoff):
     return per_round, err
 
 
+# ------------------------------------------------------------------ I: results must not depend on / rewrite earlier calls
+def deep_flat(x, path=""):
+    """every leaf of a nested structure with its path; arrays element-wise; unknown objects by type name"""
+    out = {}
+    if isinstance(x, dict):
+        out[path + "{}"] = sorted(str(k) for k in x)
+        for k, v in x.items():
+            out.update(deep_flat(v, path + "/" + str(k)))
+    elif isinstance(x, np.ndarray):
+        out[path] = ["array"] + [float(v) for v in np.ravel(x).tolist()]
+    elif isinstance(x, (list, tuple)):
+        out[path + "[]"] = len(x)
+        for i, v in enumerate(x):
+            out.update(deep_flat(v, f"{path}/{i}"))
+    elif isinstance(x, (bool, np.bool_)):
+        out[path] = bool(x)
+    elif isinstance(x, (int, float, np.integer, np.floating)):
+        f = float(x)
+        out[path] = "nan" if f != f else f
+    elif isinstance(x, str) or x is None:
+        out[path] = x
+    else:
+        out[path] = "<" + type(x).__name__ + ">"
+    return out
+
+
+def flat_diff(a, b, limit=6):
+    keys = sorted(set(a) | set(b))
+    return [[k, a.get(k, "<absent>"), b.get(k, "<absent>")] for k in keys if a.get(k, "<absent>") != b.get(k, "<absent>")][:limit]
+
+
+def lost_or_changed(before, after, limit=6):
+    """entries present before that are gone or different afterwards (additions are not modifications of what was handed in)"""
+    out = []
+    for k, v in before.items():
+        w = after.get(k, "<absent>")
+        if k.endswith("{}"):
+            if w == "<absent>" or not set(v) <= set(w):
+                out.append([k, [x for x in v if w == "<absent>" or x not in w], "<keys removed>"])
+        elif w != v:
+            out.append([k, v, w])
+    return out[:limit]
+
+
+def in_child(fn):
+    """run fn() in a forked child (pristine copy of this process' module state) and return its JSON-able result"""
+    import os
+    import json as _json
+    r, w = os.pipe()
+    pid = os.fork()
+    if pid == 0:
+        code = 0
+        try:
+            os.close(r)
+            try:
+                res = {"ok": True, "res": fn()}
+            except BaseException as e:  # noqa
+                res = {"ok": False, "err": classify(e) + ": " + str(e)[:200]}
+            with os.fdopen(w, "w") as f:
+                _json.dump(res, f)
+        except BaseException:
+            code = 1
+        finally:
+            os._exit(code)
+    os.close(w)
+    with os.fdopen(r) as f:
+        txt = f.read()
+    os.waitpid(pid, 0)
+    return _json.loads(txt) if txt else {"ok": False, "err": "child died"}
+
+
+def one_call(rows, call):
+    from src.scenarios.run_scenario import ScenarioRunner
+    row = None if call["row"] is None else rows.get(call["row"])[0]
+    opts = {k: v for k, v in call["opts"]}
+    try:
+        with quiet():
+            cp, tc, loader = ScenarioRunner().set_depending_on_option(opts, country_data=row)
+        return {"ok": True, "cp": cp, "tc": tc}
+    except BaseException as e:
+        return {"ok": False, "kind": classify(e)}
+
+
+def check_call_history(a, history):
+    """history: list of {"opts": [[k, v]...], "row": iso3|None}.  Every call's WHOLE result (all nested dictionaries)
+    must equal the result of the same call made first in a pristine process, and no later call may rewrite a
+    dictionary returned earlier."""
+    import src.scenarios.run_scenario  # noqa: imported before forking so that children are cheap
+    rows = a.rows
+
+    def reference(call):
+        def f():
+            r = one_call(rows, call)
+            return {"ok": r["ok"], "kind": r.get("kind"), "cp": deep_flat(r["cp"]) if r["ok"] else None,
+                    "tc": deep_flat(r["tc"]) if r["ok"] else None}
+        return in_child(f)
+
+    def whole():
+        out = {"calls": [], "rewritten": []}
+        kept = []
+        for i, call in enumerate(history):
+            r = one_call(rows, call)
+            if r["ok"]:
+                kept.append((i, r["cp"], r["tc"], deep_flat(r["cp"]), deep_flat(r["tc"])))
+                out["calls"].append({"ok": True, "cp": kept[-1][3], "tc": kept[-1][4]})
+            else:
+                out["calls"].append({"ok": False, "kind": r["kind"]})
+            # every dictionary returned earlier must still be what it was when it was returned
+            for j, cp, tc, fcp, ftc in kept[:-1] if r["ok"] else kept:
+                d = flat_diff(fcp, deep_flat(cp)) + flat_diff(ftc, deep_flat(tc))
+                if d:
+                    out["rewritten"].append({"earlier": j, "by": i, "diff": d})
+        return out
+    refs = [reference(c) for c in history]
+    got = in_child(whole)
+    a.cnt("I_call_histories")
+    inp = {"history": history}
+    if not got["ok"] or not all(r["ok"] for r in refs):
+        a.obs.setdefault("history_errors", []).append(str(got.get("err")) + str([r.get("err") for r in refs if not r["ok"]]))
+        return
+    for i, (ref, g) in enumerate(zip(refs, got["res"]["calls"])):
+        ref = ref["res"]
+        a.cnt("I_calls_compared", False)
+        if ref["ok"] != g["ok"]:
+            a.fail("C13:result-depends-on-earlier-call@set_depending_on_option",
+                   f"call {i + 1} of the history is {'accepted' if g['ok'] else 'rejected'} but "
+                   f"{'accepted' if ref['ok'] else 'rejected'} when made first in a fresh process", "history", {**inp, "index": i})
+            continue
+        if not ref["ok"]:
+            continue
+        d = flat_diff(ref["cp"], g["cp"]) + flat_diff(ref["tc"], g["tc"])
+        if d:
+            a.fail("C13:result-depends-on-earlier-call@set_depending_on_option",
+                   f"call {i + 1} of {len(history)} ({dict((k, v) for k, v in history[i]['opts'] if k in ('scenario', 'shutoff', 'scale'))}, "
+                   f"row {history[i]['row']}) returns constants that differ from the same call made first in a fresh process: "
+                   f"[path, fresh, in-history] {d[:4]}", "history", {**inp, "index": i, "diff": d})
+    for rw in got["res"]["rewritten"]:
+        a.fail("C13:earlier-result-rewritten@set_depending_on_option",
+               f"the constants returned by call {rw['earlier'] + 1} were rewritten by call {rw['by'] + 1}: "
+               f"[path, when returned, now] {rw['diff'][:4]}", "history", {**inp, **rw})
+
+
+def part_I(a, quick):
+    B = a.B
+    rows = a.p["special_rows"]
+
+    def v(base, **kw):
+        return [[k, kw.get(k, val)] for k, val in B[base]]
+    hs = [
+        [{"opts": v("C"), "row": rows[4]}, {"opts": v("C", scenario="no_resilient_foods", shutoff="immediate"), "row": rows[4]}],
+        [{"opts": v("G"), "row": None}, {"opts": v("G", scenario="no_resilient_foods", shutoff="immediate"), "row": None},
+         {"opts": v("G", scenario="seaweed", shutoff="short_delayed_shutoff"), "row": None}],
+        [{"opts": v("C2"), "row": rows[5]}, {"opts": v("C"), "row": rows[0]},
+         {"opts": v("C", scenario="greenhouse", shutoff="immediate", waste="zero"), "row": rows[4]}],
+        [{"opts": v("C", scenario="no_resilient_foods", shutoff="immediate"), "row": rows[3]}, {"opts": v("G"), "row": None},
+         {"opts": v("C", scenario="no_resilient_foods", shutoff="immediate"), "row": rows[3]}],
+    ]
+    scen = ["all_resilient_foods", "all_resilient_foods_and_more_area", "no_resilient_foods", "seaweed", "methane_scp",
+            "cellulosic_sugar", "relocated_crops", "greenhouse", "industrial_foods"]
+    shut = ["immediate", "one_month_delayed_shutoff", "short_delayed_shutoff", "long_delayed_shutoff", "continued",
+            "continued_after_10_percent_fed", "long_delayed_shutoff_after_10_percent_fed"]
+    for _ in range(3 if quick else 14):
+        h = []
+        for _ in range(a.rng.randint(2, 3)):
+            if a.rng.random() < 0.3:
+                h.append({"opts": v("G", scenario=a.rng.choice(scen), shutoff=a.rng.choice(shut),
+                                    nutrition=a.rng.choice(["baseline", "catastrophe"])), "row": None})
+            else:
+                h.append({"opts": v(a.rng.choice(["C", "C2"]), scenario=a.rng.choice(scen), shutoff=a.rng.choice(shut),
+                                    cull=a.rng.choice(["do_eat_culled", "dont_eat_culled"])), "row": a.rng.choice(rows)})
+        hs.append(h)
+    for h in hs:
+        check_call_history(a, h)
+
+
+# ------------------------------------------------------------------ full runs with every numeric override
+OVERRIDE_RUNS = [
+    ("ARG", 96, "continued", {"kg_meat_per_large_animal": 311.5, "MINIMUM_PERCENT_FED_BEFORE_NONHUMAN_CONSUMPTION_ALLOWED": 85,
+                              "RATIO_STOCKS_UNTOUCHED": 0.25, "CROP_PRODUCTION_MULTIPLIER": 0.75, "GRASSES_PRODUCTION_MULTIPLIER": 0.5}),
+    ("NZL", 96, "continued", {"kg_meat_per_large_animal": 198.25, "RATIO_STOCKS_UNTOUCHED": 0.5}),
+    ("IND", 72, "long_delayed_shutoff", {"kg_meat_per_large_animal": 150.0, "CROP_PRODUCTION_MULTIPLIER": 1.25,
+                                         "MINIMUM_PERCENT_FED_BEFORE_NONHUMAN_CONSUMPTION_ALLOWED": 60}),
+]
+
+
+def check_override_run(a, iso, nmonths, shutoff, extras):
+    """a FULL three-round run with numeric overrides: the constants handed to every compute_parameters_*_round carry
+    the override values, MeatAndDairy uses the override in every round, and neither the constants nor the caller's
+    option dictionary are modified by the run"""
+    import runutil
+    import src.optimizer.parameters as par
+    import src.food_system.meat_and_dairy as mad
+    from src.scenarios.run_scenario import ScenarioRunner
+    runutil.redirect_results()
+    opt = runutil.option(NMONTHS=nmonths, shutoff=shutoff, **extras)
+    opt_snapshot = copy.deepcopy(opt)
+    inp = {"iso3": iso, "nmonths": nmonths, "shutoff": shutoff, "extras": extras}
+    r, country_data = runutil.country_row(iso, copy.deepcopy(opt))
+    # expectation: the same dispatch without the extras, then the documented effect of each override
+    base_opt = {k: v for k, v in opt.items() if k not in extras}
+    with quiet():
+        base_cp, _, _ = ScenarioRunner().set_depending_on_option(copy.deepcopy(base_opt), country_data=country_data)
+    expect = {}
+    for k, v in extras.items():
+        if k == "CROP_PRODUCTION_MULTIPLIER" or k == "GRASSES_PRODUCTION_MULTIPLIER":
+            pre = "RATIO_CROPS_YEAR" if k.startswith("CROP") else "RATIO_GRASSES_YEAR"
+            for i in range(1, 12):
+                if pre + str(i) in base_cp:
+                    expect[pre + str(i)] = float(base_cp[pre + str(i)]) * float(v)
+        else:
+            expect[k] = float(v)
+    names = {1: "compute_parameters_first_round", 2: "compute_parameters_second_round", 3: "compute_parameters_third_round"}
+    origs = {k: getattr(par.Parameters, n) for k, n in names.items()}
+    rnd = [0]
+    seen_rounds, kg_used = {}, []
+
+    def mk(k):
+        def w(self, constants_inputs, *args, **kw):
+            prev = rnd[0]
+            rnd[0] = k
+            before = deep_flat(constants_inputs)
+            seen_rounds[k] = {key: constants_inputs.get(key, "<absent>") for key in expect}
+            try:
+                return origs[k](self, constants_inputs, *args, **kw)
+            finally:
+                rnd[0] = prev
+                after = deep_flat(constants_inputs)
+                added = sorted(set(after) - set(before))
+                if added:
+                    a.obs.setdefault("constants_added_during_rounds", {})[names[k]] = [x for x in added if not x.endswith("{}")][:8]
+                d = lost_or_changed(before, after)
+                if d:
+                    a.fail(f"C13:constants-modified-in-run@parameters.{names[k]}",
+                           f"{iso}: the constants dictionary handed to round {k} was modified during the round: "
+                           f"[path, before, after] {d[:4]}", "overriderun", inp)
+        return w
+    orig_init = mad.MeatAndDairy.__init__
+
+    def init(self, constants_for_params, *args, **kw):
+        orig_init(self, constants_for_params, *args, **kw)
+        kg_used.append((rnd[0], float(self.KG_PER_LARGE_ANIMAL)))
+    for k, n in names.items():
+        setattr(par.Parameters, n, mk(k))
+    mad.MeatAndDairy.__init__ = init
+    err = None
+    try:
+        with quiet():
+            r.run_optimizer_for_country(country_data, opt, False, False, False, title="c13_ovr")
+    except BaseException as e:
+        err = classify(e) + ": " + str(e)[:100]
+    finally:
+        for k, n in names.items():
+            setattr(par.Parameters, n, origs[k])
+        mad.MeatAndDairy.__init__ = orig_init
+        runutil.cleanup_cwd()
+    a.cnt("F_override_runs")
+    for k, vals in sorted(seen_rounds.items()):
+        for key, want in expect.items():
+            got = vals.get(key)
+            a.cnt("F_override_values_checked", False)
+            ok = isinstance(got, (int, float, np.integer, np.floating)) and abs(float(got) - want) <= 1e-12 * max(1.0, abs(want))
+            if not ok:
+                a.fail(f"C13:override-lost-in-later-round@parameters.{names[k]}:{key}",
+                       f"{iso}: round {k} is handed {key}={got!r}, the option asks for {want}", "overriderun", inp)
+    if "kg_meat_per_large_animal" in extras:
+        for k, used in kg_used:
+            a.cnt("F_override_values_checked", False)
+            if abs(used - float(extras["kg_meat_per_large_animal"])) > 1e-12 * used:
+                a.fail("C13:override-lost-in-later-round@MeatAndDairy.__init__",
+                       f"{iso}: MeatAndDairy built in round {k} uses {used} kg per large animal, the option says "
+                       f"{extras['kg_meat_per_large_animal']}", "overriderun", inp)
+    if opt != opt_snapshot or list(opt) != list(opt_snapshot):
+        a.fail("C13:caller-dict-modified@run_model_no_trade.run_optimizer_for_country", f"{iso}: option dictionary modified by the run",
+               "overriderun", inp)
+    a.obs.setdefault("override_runs", []).append({"run": inp, "rounds_seen": sorted(seen_rounds),
+                                                  "meat_and_dairy_rounds": [k for k, _ in kg_used], "error": err})
+
+
 def species_columns():
     t = pd.read_csv("data/no_food_trade/animal_feed_data/FAOSTAT_head_and_slaughter.csv", nrows=1)
     return [c for c in t.columns if c.endswith("_head")]
@@ -645,6 +923,10 @@ def run(payload):
             a.check_head(inp["species"], inp["code"], inp["value"])
         elif chk == "doc":
             a.check_doc(inp["fam"], inp["val"])
+        elif chk == "history":
+            check_call_history(a, inp["history"])
+        elif chk == "overriderun":
+            check_override_run(a, inp["iso3"], inp["nmonths"], inp["shutoff"], inp["extras"])
         elif chk == "fullrun":
             check_full_run(a, inp["iso3"], inp["species"], inp["value"], inp["nmonths"], inp["shutoff"])
         elif chk == "country":
@@ -658,6 +940,7 @@ def run(payload):
             a.part_A(); a.part_B(); a.part_D(species); a.part_G()
         return {"failures": a.failures, "replayed": chk, "counts": a.counts, "observations": a.obs, "distinct": a.distinct}
     quick = payload.get("tier") == "quick"
+    part_I(a, quick)   # first: needs a process in which no Scenarios method has run yet
     a.part_A()
     a.part_G()
     a.part_H()
@@ -671,6 +954,8 @@ def run(payload):
     a.part_E(species, codes)
     for fr in (FULL_RUNS[:2] if quick else FULL_RUNS):
         check_full_run(a, *fr)
+    for orun in (OVERRIDE_RUNS[:2] if quick else OVERRIDE_RUNS):
+        check_override_run(a, *orun)
     return {"failures": a.failures, "counts": a.counts, "observations": a.obs, "distinct": a.distinct}
 
 
